@@ -311,13 +311,29 @@ func scionReplies(t *rapid.T, req []byte) [][]byte {
 	if err != nil {
 		return nil
 	}
+	if q := p.UDP.Payload; len(q) >= 48 && rapid.IntRange(0, 5).Draw(t, "single-fault") == 0 {
+		// an otherwise acceptable reply whose only unusual part is the (unauthenticated) timestamp option
+		sec, frac := binary.BigEndian.Uint32(q[40:]), binary.BigEndian.Uint32(q[44:])
+		near := time.Unix(int64(sec)-2208988800, int64(uint64(frac)*1e9>>32))
+		out := wire.Pkt{SrcIA: p.SCION.DstIA, DstIA: p.SCION.SrcIA, Src: dst, Dst: src, Path: rev, SrcPort: p.UDP.DstPort, DstPort: p.UDP.SrcPort,
+			Payload: genuineNTPReply(q), E2E: []*slayers.EndToEndOption{{OptType: 253, OptData: cmsgBody(t, near)}}}
+		if raw, err := out.Serialize(nil, nil); err == nil {
+			return [][]byte{raw}
+		}
+	}
 	out := wire.Pkt{SrcIA: p.SCION.DstIA, DstIA: p.SCION.SrcIA, Src: dst, Dst: src, Path: rev, SrcPort: p.UDP.DstPort, DstPort: p.UDP.SrcPort, Payload: pay,
 		HBH: rapid.IntRange(0, 5).Draw(t, "hbh") == 2}
 	var opts []*slayers.EndToEndOption
 	for i := rapid.IntRange(0, 2).Draw(t, "nopts"); i > 0; i-- {
 		switch rapid.SampledFrom([]string{"ts253", "ts253", "spao-badlen", "spao-server", "other"}).Draw(t, "opt") {
 		case "ts253":
-			opts = append(opts, &slayers.EndToEndOption{OptType: 253, OptData: cmsgBody(t)})
+			var near []time.Time
+			if q := p.UDP.Payload; len(q) >= 48 {
+				// the request's transmit timestamp (the client's clock reading before it sent the request)
+				sec, frac := binary.BigEndian.Uint32(q[40:]), binary.BigEndian.Uint32(q[44:])
+				near = []time.Time{time.Unix(int64(sec)-2208988800, int64(uint64(frac)*1e9>>32))}
+			}
+			opts = append(opts, &slayers.EndToEndOption{OptType: 253, OptData: cmsgBody(t, near...)})
 		case "spao-badlen":
 			n := rapid.IntRange(0, 40).Draw(t, "spaolen")
 			d := make([]byte, n)
